@@ -412,6 +412,7 @@ func writeEvidence(e *Engine, outDir, prop, tier string, funcs []string, total, 
 			"assumed_callee_contracts":  as,
 			"discharged_by_solver":      bySolver,
 			"solver_ms":                 solverMs,
+			"solver_time_limit_scale_for_machine_load": loadScale,
 			"glue_equalities_inferred":  glue,
 			"per_function":              perFunc,
 			"known_findings_hit":        knownHit,
